@@ -29,7 +29,10 @@ def run(chk):
         "not the behaviour of `return` on all programs. R06a: as R07a for the Return variant — no feasible absorb site of an "
         "expression-originated error may still hold Return (so `??`, `ok, err =`, `||`, function-call wrappers cannot swallow or "
         "re-label it). R06b: Return is converted to a value exactly in Runtime::resolve and in *every* Runner method that invokes the "
-        "closure (sibling agreement across object/array/map_key/map_value iteration). Undecided: the value carried, absence of later side effects.")
+        "closure (sibling agreement across object/array/map_key/map_value iteration). R06c: in the resolve of every compiler expression a child "
+        "expression is evaluated only in P-VAR states where every earlier child's Result is Ok (the `??` arm is the one reviewed exception), so no side "
+        "effect of the same expression happens after a `return`. R06d: the value inside ExpressionError::Return is moved out (which ends the return "
+        "without any drop) only in Runtime::resolve and closure::Runner::call. Undecided: the value carried, effects of *other* expressions after a return.")
     chk.assumptions += p_assumptions()
     absorb.check_absorb(chk, "R06a", "Return", "return can be swallowed or re-labelled")
 
@@ -91,3 +94,47 @@ def p_assumptions():
         "transitively contains one, or is the parameter of a closure/function (conservative)",
         "closure runners are exactly the methods of compiler::function::closure::Runner that call the generic closure (floor: 4)",
     ]
+
+
+def _siblings(chk):
+    import siblings
+    siblings.rule_sibling_evaluation(chk, "R06c", "returned")
+    rule_r06d(chk)
+
+
+RETURN_CONVERTERS = {
+    "compiler::runtime::Runtime::resolve": "a `return` ends the program with its value",
+    "compiler::function::closure::Runner::<'a, T>::call": "a `return` inside a closure body ends that invocation with its value (R06b)",
+}
+
+
+def rule_r06d(chk):
+    """who may take the value out of ExpressionError::Return: destructuring moves the payload without any Drop terminator, so R06a cannot see it"""
+    facts = chk.facts
+    rid = "R06d"
+    chk.rule(rid, "the value carried by ExpressionError::Return is moved out only in Runtime::resolve and closure::Runner::call", floor=2)
+    seen = {}
+    for n in facts.grep('"v":"Return"'):
+        b = facts.body(n)
+        for bi, si, st in b.iter_stmts():
+            rv = st["rv"]
+            ops = [rv.get("op"), rv.get("a"), rv.get("b")] + list(rv.get("ops", []))
+            for op in ops:
+                if not (isinstance(op, dict) and op.get("k") == "move"):
+                    continue
+                proj = op["p"].get("p", [])
+                if any(isinstance(e, dict) and e.get("v") == "Return" for e in proj) and "value" in [e.get("f") for e in proj if isinstance(e, dict)]:
+                    if "ExpressionError" in b.local_ty(op["p"]["l"]) or "expression_error" in b.local_ty(op["p"]["l"]):
+                        seen.setdefault(n.split("::{closure")[0], []).append(st.get("ln"))
+    for n, lines in sorted(seen.items()):
+        d = {"fn": n, "lines": lines, "reviewed": RETURN_CONVERTERS.get(n)}
+        ok = n in RETURN_CONVERTERS
+        chk.instance(rid, d, ok=ok)
+        if not ok:
+            nb = facts.body(n) if facts.has(n) else None
+            chk.violation(rid, nb.file if nb else "src", n, "Return payload taken out",
+                          "%s takes the value out of ExpressionError::Return (line %s) and so ends the `return` there: only Runtime::resolve (program) and the "
+                          "closure runner (closure body) may do that" % (n, lines[0]), detail=d, loc=("%s:%s" % (nb.file, lines[0])) if nb else None)
+    for n in RETURN_CONVERTERS:
+        if n not in seen:
+            chk.fail_closed(rid, "expected converter %s no longer takes the Return value out (re-anchor R06d/R06b)" % n)
